@@ -10,6 +10,7 @@ Stable public API (reused by C04 C05 and later C09 C10 C15 C16 C31 C32)
     ``Ambiguous`` for cases the documentation does not decide -> count them as discarded)
 ``module_exports(ir, name, data)``                   expected public attributes of ``make_module(data)``
 ``make_env(ir, enable_async=False, **options)``      Environment with DictLoader(print_set(ir)) + ir["globals"]
+``validate(ir)``                                     generator invariant check (message or None)
 ``decode_data(env, data)``                           JSON data -> render arguments ({"$": "template"} -> Template)
 ``render_entry(env, name, data, loop=None)``         renders through render / render_async
 
@@ -130,6 +131,37 @@ def print_stmt(n):
         names = ", ".join(a if b is None else "%s as %s" % (a, b) for a, b in n[2])
         return "{%% from %s import %s%s %%}" % (_target(n[1]), names, _ctxflag(n[3]))
     raise ValueError("unknown statement %r" % (n,))
+
+
+def validate(ir):
+    """Static well-formedness the generators guarantee (a failure is a generator bug, not a finding):
+    every block name at most once per template.  -> error message or None"""
+    def walk(body, seen, tname):
+        for n in body:
+            k = n[0]
+            if k == "block":
+                if n[1] in seen:
+                    return "block %r defined twice in %s" % (n[1], tname)
+                seen.add(n[1])
+                r = walk(n[3], seen, tname)
+            elif k == "if":
+                r = walk(n[2], seen, tname) or walk(n[3], seen, tname)
+            elif k in ("for", "with", "macro"):
+                r = walk(n[3], seen, tname)
+            elif k == "setblock":
+                r = walk(n[2], seen, tname)
+            else:
+                r = None
+            if r:
+                return r
+        return None
+
+    for tname, body in ir["templates"].items():
+        if isinstance(body, list):
+            msg = walk(body, set(), tname)
+            if msg:
+                return msg
+    return None
 
 
 def print_set(ir):
@@ -357,7 +389,7 @@ class _HGen:
         items = []
         if not is_root:
             for name, fl in sorted(self.below.items()):
-                if len(fl) == 1 and fl[0].get("required") and d(st.integers(0, 9)) < 6:
+                if name not in self.used and len(fl) == 1 and fl[0].get("required") and d(st.integers(0, 9)) < 6:
                     items.append(self.block_node(name, lvl, 0, in_loop=False))
         n = d(st.integers(2, self.size + 3)) if is_root else d(st.integers(1, self.size + 2))
         for _ in range(n):
